@@ -111,3 +111,55 @@ PROPS["C12"] = dict(
          "model, and with the declarative bracket spec (oracle, evaluated in the check). Distinct = distinct sources.",
     trusted_base=["chars() of the Rust &str = String.toList of the decoded UTF-8 in Lean"],
 )
+
+PROPS["C15"] = dict(
+    modules=["Hpbf.Props.C15"],
+    theorems=t("Hpbf.C15", "value_val value_var value_add value_mul value_neg value_half value_normalize "
+               "value_symbEvaluate symbEvaluate_defined symbEvaluate_none_iff value_mulParts constant_recompose "
+               "identity_recompose constIncOf_recompose prodOf_recompose incOf_recompose prodIncOf_recompose "
+               "constantPart_recompose incOf_fresh prodIncOf_fresh canon_implies_weakCanon preserve_val preserve_var "
+               "preserve_add preserve_mul preserve_neg preserve_half preserve_normalize preserve_symbEvaluate "
+               "preserve_prodOf preserve_incOf preserve_prodIncOf built_canon C15_arithmetic C15_decompositions "
+               "mul_original_breaks_normal_form"),
+    streams=[dict(suite="expr", quick=4000, thorough=200000, judge="expr")],
+    corpus=["C15"], corpus_judge="expr",
+    scope="Full: the value of val/var/add/mul/neg/half/normalize/symb_evaluate results equals the arithmetic on the "
+          "operand values for ALL part lists and every width; constant/identity/const_inc_of/prod_of recompose "
+          "unconditionally; inc_of/prod_inc_of/constant_part recompose under WeakCanon, which follows from the normal "
+          "form Canon that every public constructor preserves (built_canon). The defect of the original mul fast path "
+          "(F9) is proved on its witness.",
+    not_proved="Expr::split_along and Expr::codegen are not in this model (codegen is modelled in BcGen)",
+    rule="random operation trees (postfix programs over val/var/add/mul by ref and by value/neg/half/normalize/"
+         "symb_evaluate total and partial/prod_of) with boundary coefficients (0, 1, -1, 2^(w-1), 2^(w-1)±1), 4 widths; "
+         "the parts are compared structurally after EVERY operation plus all queries and evaluate on an assignment; the "
+         "harness additionally checks the value of each result and that every decomposition recomposes (oracle). "
+         "Distinct = distinct operation trees.",
+    trusted_base=["hash maps are modelled as association lists followed by the sort the Rust performs"],
+)
+
+PROPS["C01"] = dict(
+    modules=["Hpbf.Props.C01"],
+    theorems=t("Hpbf.C01", "C01_parse_ok_of_tree parse_forward parse_backward parse_never_interrupted parse_prefix "
+               "C01_odd_step_reaches_zero canonical_odd_loop_zeroes canonical_odd_loop_zeroes_src canonical_folded_loop_zeroes"),
+    streams=[dict(suite="irparse", quick=2000, thorough=100000, judge="parse"),
+             dict(suite="irrun", quick=1500, thorough=60000, judge="program"),
+             dict(suite="e2e", quick=2500, thorough=60000, thorough_seeds=4, judge="program"),
+             dict(suite="levelcap", quick=400, thorough=20000, judge="const"),
+             dict(suite="irecho", quick=300, thorough=5000, judge="const")],
+    corpus=["programs"], corpus_judge="program",
+    scope="Level 0 is FULL: for every balanced program, environment and width (w >= 1) the IR produced by "
+          "Program::parse, run by the IR interpreter model, has exactly the canonical event sequence, terminates iff "
+          "the canonical run does, and every intermediate output is a canonical prefix (parse_forward/backward/prefix); "
+          "the folding of odd-step loops is justified for every width. Levels >= 1: partial, see not_proved.",
+    not_proved="optimize (levels 1..3) has no Lean model: its hash-order dependent plumbing is not ported. For levels >= 1 "
+               "the universal statement is NOT discharged; it is checked per program by comparing IR interpreter, bytecode "
+               "interpreter and JIT at levels 0,1,2,3,4,7 (limited and unlimited) with the PROVED canonical semantics, "
+               "on structured programs that exercise trip counts and closed forms; 'levels above 3 behave like level 3' "
+               "is checked as structural IR equality for levels 4,5,7,100,u32::MAX",
+    rule="e2e: generated programs (token-level, IR-first structured with affine assignments in counted loops, roaming) "
+         "x 4 widths x environments x IR interpreter/bytecode interpreter/JIT x levels {0,1,2,3,4,7} x {unlimited, "
+         "limited 2^40}, each compared with the Lean canonical run (programs whose gate run exceeds 3000 loop "
+         "iterations are skipped and counted); irparse/irrun: parser and IR interpreter vs their models at level 0. "
+         "Non-trivial = at least one I/O event; distinct = distinct requests.",
+    trusted_base=["Expr::evaluate as modelled in Hpbf/Expr.lean (tied by the C15 check)"],
+)
